@@ -637,7 +637,7 @@ class MySQLParser(SQLParser):
         if hasattr(p, 'identifier'):
             entity.alias = p.identifier
         if hasattr(p, 'dquote_string'):
-            entity.alias = Identifier(p.dquote_string)
+            entity.alias = self.string_to_identifier(p.dquote_string)
         return entity
 
     @_('LPAREN query RPAREN')
@@ -701,7 +701,7 @@ class MySQLParser(SQLParser):
         if col.alias:
             raise ParsingException(f'Attempt to provide two aliases for {str(col)}')
         if hasattr(p, 'dquote_string'):
-            alias = Identifier(p.dquote_string)
+            alias = self.string_to_identifier(p.dquote_string)
         else:
             alias = p.identifier
         col.alias = alias
@@ -955,6 +955,12 @@ class MySQLParser(SQLParser):
     def identifier(self, p):
         value = p[0]
         return Identifier.from_path_str(value)
+
+    def string_to_identifier(self, value):
+        # a name written as a quoted string
+        if value == '':
+            raise ParsingException('Identifier can not be an empty string')
+        return Identifier(value)
 
     @_('quote_string',
        'dquote_string')
